@@ -37,7 +37,7 @@ def gen_join_scenario(rng, variant, tier, style=None, stop=False):
     v1 = variant == 2
     J = rng.choice([1, 2, 3, 4, 5, 7, 9])
     nocopy = rng.random() < 0.45
-    style = style or rng.choice(["untimed", "timed", "timed", "timed", "trickle", "slowcons", "tiny", "blockedwrite", "long"])
+    style = style or rng.choice(["untimed", "timed", "timed", "timed", "trickle", "slowcons", "tiny", "blockedwrite", "long", "backlog"])
     unit = 10_000_000 if v1 else 1
     if style == "untimed":
         T, inacc = rng.choice([0, 0, -5]), rng.choice([0, 25, 100])
@@ -106,14 +106,29 @@ def gen_join_scenario(rng, variant, tier, style=None, stop=False):
             prod = prod[: icap + 4]
         prod.append((stall + 2 * unit, 1))
         prod.append((rng.choice([3 * Tm, 4 * Tm]), 1))
+    if style == "backlog" and T > 0:
+        # no-copy mode, the consumer keeps the first slice well beyond the Timeout while a backlog of more than one maximal slice plus
+        # a remainder queues up in the input buffer; after the release the remainder must still wait for its own Timeout
+        nocopy = True
+        k = rng.randrange(1, J) if J > 1 else 1
+        burst = 2 * J + k
+        icap = burst + rng.choice([0, 2])
+        if variant == 1:
+            prod = [(1, J)] + [(2 * unit if i == 0 else 0, 1) for i in range(burst)]
+        else:
+            prod = [(1, 1)] + [(0, 1)] * (J - 1) + [(2 * unit if i == 0 else 0, 1) for i in range(burst)]
     cons = []
-    if style == "blockedwrite" and T > 0:
+    if style == "backlog" and T > 0:
+        cons = [(rng.choice([2, 3]) * Tm + 10 * unit, 0)]
+    elif style == "blockedwrite" and T > 0:
         cons = [(0, stall)]
     elif style == "slowcons" or rng.random() < 0.25:
         for i in range(rng.randrange(1, 6)):
             cons.append((rng.choice([0, 0, 10 * unit, Tm // 2, 2 * Tm]) if nocopy else 0,
                          rng.choice([0, 0, 20 * unit, Tm // 2, Tm, 4 * Tm])))
     close_after = rng.choice([2 * unit, 2 * Tm, 6 * Tm + 2 * unit])
+    if style == "backlog":
+        close_after = 6 * Tm + 2 * unit
     capextra = rng.choice([0, 0, 1, J, 2 * J, -1, -1, -2, -2]) if variant == 1 else 0     # -1: empty input slices are nil slices; -2: windows of one array
     stop_at = -1
     if stop and v1:
@@ -269,7 +284,7 @@ def gen_limit_scenario(rng, tier, style=None):
     I = rng.choice([1000, 10 ** 6, 10 ** 9])
     icap = rng.choice([0, 0, 1, 3, min(Q, 8), min(2 * Q, 16)])
     huge_ok = style is None
-    style = style or rng.choice(["upfront", "upfront", "trickle", "stall-burst", "random", "slowcons"])
+    style = style or rng.choice(["upfront", "upfront", "trickle", "stall-burst", "random", "slowcons", "stall-upfront"])
     if style == "slowcons" and rng.random() < 0.5:
         icap = 0        # the output buffer is a single slot: a busy consumer makes the discipline block inside a batch
     k = rng.randrange(0, 5)
@@ -295,6 +310,15 @@ def gen_limit_scenario(rng, tier, style=None):
     else:
         delays = [rng.choice([0, 0, 1, I // 3, I, 3 * I]) for _ in range(N)]
     cons = []
+    if style == "stall-upfront":
+        # everything is available at once, the consumer takes a few elements, stalls for a few Intervals (the output fills up and the
+        # discipline blocks inside a portion while Intervals pass), then reads eagerly: no window may see more than two portions
+        Q = rng.choice([2, 3, 5, 7])
+        icap = rng.choice([0, 0, 1, Q])
+        N = rng.choice([3, 4, 6]) * Q + rng.randrange(0, Q)
+        delays = [0] * N
+        first = rng.choice([1, Q - 1, Q, Q + 1, 2 * Q])
+        cons = [(first, rng.choice([I + I // 2, 2 * I + 3 * I // 4, 3 * I + I // 4, 5 * I + I // 3]))]
     if style == "slowcons" and N:
         for idx in sorted(rng.sample(range(N), min(N, rng.randrange(1, 4)))):
             cons.append((idx, rng.choice([I // 2, 3 * I, 7 * I])))
@@ -426,13 +450,22 @@ def monitor_join(kind):
                 if outs != ref:
                     fails.append("without a timeout the output %s is not the greedy batching %s" % (outs, ref))
             else:
-                for i in range(len(outs) - 1):     # non-final slices
+                # the final slice is the one cut by the end of the input: delivered when (or after) the input was closed; a last
+                # output that left while the input was still open was cut by the timeout like any other
+                closed_at = (tr.puts[-1] + m["close_after"]) if tr.puts and len(tr.puts) == len(m["prod"]) else None
+                for i in range(len(outs)):
+                    if i == len(outs) - 1 and (closed_at is None or tr.outs[i][0] >= closed_at):
+                        continue
                     if outs[i] and not is_maximal(m, ins, outs, i):
                         if i == 0:
                             lb = 0
                         else:
                             last = outs[i - 1][-1] if outs[i - 1] else None
                             lb = lower_bound_write(tr, i - 1, ocap, put_of.get(last) or 0)
+                            if m["nocopy"] and i >= 2:
+                                # no-copy mode: slice i-1 cannot have been written before slice i-2 was released (received + held)
+                                hold = m["cons"][i - 2][0] if i - 2 < len(m["cons"]) else 0
+                                lb = max(lb, tr.outs[i - 2][0] + hold)
                         if tr.outs[i][0] - lb < T:
                             fails.append("non-maximal non-final slice %s delivered at %d, less than Timeout=%d after the previous delivery (not before %d)"
                                          % (outs[i], tr.outs[i][0], T, lb))
@@ -515,10 +548,15 @@ def monitor_limit(kind):
                 if cnt > Q * (t // I + 1):
                     fails.append("%d elements left the output by t=%d, allowed %d*(floor(t/%d)+1) = %d" % (cnt, t, Q, I, Q * (t // I + 1)))
                     break
-            # window bound: on write times = receive times of a consumer that never pauses
-            if m["prompt"]:
+            # window bound: on write times.  A consumer that never pauses receives every element the instant it is written; after
+            # the last pause of a consumer that then reads eagerly the same is true of every element except those that were
+            # already in the output channel (1 + cap(input) slots) or inside the blocked send when the pause ended
+            start = 0
+            if not m["prompt"]:
+                start = max(idx for idx, _ in m["cons"]) + m["icap"] + 4
+            if True:
                 n = len(times)
-                for i in range(n):
+                for i in range(start, n):
                     hi = min(n, i + 3 * Q + 2)
                     for j in range(i + 1, hi):
                         w = times[j] - times[i]
